@@ -63,6 +63,11 @@ def _gen(rnd, vendor, d=0, maxd=4):
         row = _row(rnd, vendor)
         if vendor == "nokia" and d == 0 and row == "configure":
             row = "configure x"   # a TOP-LEVEL 'configure' is the wrapper the nokia splitter strips by design; nested ones are ordinary rows
+        if vendor in ("juniper", "ribbon", "nokia") and d >= 1 and row not in t and rnd.chance(12):
+            # an annotation ('/* text */' printed on the line above the statement or block it belongs to): in the tree it is the row
+            # '/* {"row": ..., "comment": ...} */' standing right before the annotated row
+            import json as _json
+            t["/* " + _json.dumps({"row": row, "comment": rnd.choice(["uplink to core", "do not touch", "x"])}) + " */"] = odict()
         t[row] = _gen(rnd, vendor, d + 1, maxd) if d < maxd and rnd.chance(45) else odict()
         if vendor == "cisco" and row.startswith("address-family"):
             # IOS domain: an address-family section is closed by exit-address-family (its last child); the splitter relies on it
@@ -164,7 +169,13 @@ def check(case):
     try:
         text = fmt.join(t)
         if case.get("nokia_wrapper"):
-            text = "configure {\n" + "\n".join(case["indent"] + l for l in text.split("\n")) + "\n}"
+            # the shape a device prints: '#' remark lines in front of the configure block, at column 0 between its sections, and after it
+            body = []
+            for l in text.split("\n"):
+                if body and l and not l[0].isspace() and l != "}":
+                    body.append("# ---- section")
+                body.append(case["indent"] + l)
+            text = "# TiMOS-C-20.10.R1 cpm/hops64\n# Generated TUE JAN 01 00:00:00 2030 UTC\nconfigure {\n" + "\n".join(body) + "\n}\n# Finished"
             labels.append("nokia-wrapper")
         det["text"] = text
         back = parse_to_tree(text, fmt.split)
